@@ -18,6 +18,7 @@ import (
 )
 
 var repo = "/repo"
+var outDir string
 
 type file struct {
 	f    *ast.File
@@ -261,12 +262,20 @@ func writeIfChanged(path, content string) {
 }
 
 func main() {
+	if len(os.Args) == 3 && os.Args[1] == "-selftest" {
+		repo = os.Args[2]
+		if !mrSelfTest(os.Stdout) {
+			os.Exit(1)
+		}
+		return
+	}
 	if len(os.Args) < 3 {
-		fmt.Println("usage: xlate <repo> <outdir>")
+		fmt.Println("usage: xlate <repo> <outdir> | xlate -selftest <repo>")
 		os.Exit(2)
 	}
 	repo = os.Args[1]
 	outdir := os.Args[2]
+	outDir = outdir
 	digests := []string{}
 	for name, gen := range generators {
 		content := gen()
